@@ -14,9 +14,10 @@ read INTO `receiving_buffer[..n]` is `Rt.slice` (the slice expression, which may
 chip content `c : Chip126`: status byte, PayloadLengthRx, RxStartBufferPointer, register 0x0702, 256-byte
 data buffer with its wrapping read pointer), every caller buffer, both header modes and every request
 prefix, and proves it agrees with the hand model `getRxPayload126` (fault-free run): same
-Ok(n) / Err(OpError status) / Err(PayloadSizeMismatch) / panic, same bytes in the caller's buffer, and on
-Ok the same requests in the same order (GetRxBufferStatus, [ReadRegister 0x0702], ReadBuffer at the
-reported offset for exactly n bytes, each followed by the busy wait).
+Ok(n) / Err(OpError status) / Err(PayloadSizeMismatch) / panic, same bytes in the caller's buffer, and the
+same requests in the same order, on Ok (GetRxBufferStatus, [ReadRegister 0x0702], ReadBuffer at the
+reported offset for exactly n bytes, each followed by the busy wait) and on Err (no ReadBuffer; no register
+read after an error status).
 -/
 set_option linter.unusedSimpArgs false
 set_option linter.unusedVariables false
@@ -44,11 +45,11 @@ def errOf : RadioError → RadioErr
   | _ => .spi
 
 /-- what it means for a run of the generated method (from request prefix `log`, caller buffer `gbuf`) to be
-the model's answer `m`, with `reqs` the requests expected on `Ok` -/
-def Agrees (g : Option (Except RadioError (Int × List Int) × Unit × List Ev)) (gbuf : List Int) (log reqs : List Ev) (m : Res) : Prop :=
+the model's answer `m`, with `reqs` the requests expected on `Ok` and `ereqs` those expected on `Err` -/
+def Agrees (g : Option (Except RadioError (Int × List Int) × Unit × List Ev)) (gbuf : List Int) (log reqs ereqs : List Ev) (m : Res) : Prop :=
   match g with
   | none => ∃ s, m.out = .panic s
-  | some (.error e, _, _) => m.out = .err (errOf e) ∧ m.buf = bytesOf gbuf
+  | some (.error e, _, log') => m.out = .err (errOf e) ∧ m.buf = bytesOf gbuf ∧ log' = log ++ ereqs
   | some (.ok (n, b), _, log') => m.out = .ok n.toNat ∧ m.buf = bytesOf b ∧ b.length = gbuf.length ∧ log' = log ++ reqs
 
 theorem byteOf_wireOf (b : UInt8) : byteOf (wireOf b) = b := by simp [byteOf, wireOf]
@@ -93,9 +94,15 @@ theorem take_chip (mem : Nat → UInt8) (off n : Nat) :
     List.take n (List.map wireOf (chipRead mem off n)) = List.map wireOf (chipRead mem off n) :=
   List.take_of_length_le (by simp [chipRead_len])
 
+/-- the requests of a refused fetch: the status read alone (`OpError`), or with the length read-back before the
+`PayloadSizeMismatch` -/
+def ereqs126 (c : Chip126) (implicit : Bool) : List Ev :=
+  [.spi [19] 3, .busy] ++ (if implicit && !isError c.status then [.spi [29, 7, 2, 0] 1, .busy] else [])
+
 theorem tieA_get_rx_payload_sx126x (self : Sx126x) (p : PacketParams) (c : Chip126) (gbuf : List Int) (log : List Ev) :
     Agrees (Sx126x.get_rx_payload self p gbuf (chipDev c) () log) gbuf log
       (reqs126 c p.implicit_header (if p.implicit_header then c.regPayloadLen.toNat else c.rxLen.toNat))
+      (ereqs126 c p.implicit_header)
       (getRxPayload126 c p.implicit_header none (bytesOf gbuf)) := by
   obtain ⟨pre, imp, pl, crc, iq⟩ := p
   have hie := tieA_is_error c.status
@@ -112,10 +119,10 @@ theorem tieA_get_rx_payload_sx126x (self : Sx126x) (p : PacketParams) (c : Chip1
   simp only [getRxPayload126, ioRead, failsAt, bind, IoM.bind, pure, IoM.pure, Rt.Phy.read, Rt.Phy.readWithStatus, Rt.Phy.xfer,
     Rt.Phy.waitOnBusy, Rt.Phy.ofOpt, Rt.Phy.throw, Rt.Phy.fill, chipDev, reduceCtorEq, if_false, o1, o2, o3, r1, r2]
   cases imp <;> by_cases he : isError c.status = true
-  all_goals simp [he, hie, i0, i1, i2, Agrees, errOf, byteOf_wireOf, Rt.Phy.throw, IoM.pure, IoM.bind, Rt.Phy.ofOpt, Rt.Phy.xfer,
+  all_goals simp [he, hie, i0, i1, i2, Agrees, errOf, ereqs126, byteOf_wireOf, Rt.Phy.throw, IoM.pure, IoM.bind, Rt.Phy.ofOpt, Rt.Phy.xfer,
     Rt.Phy.waitOnBusy, chipDev, len_lt_wire]
   · by_cases hl : gbuf.length < c.rxLen.toNat
-    · simp [hl, Rt.Phy.throw, errOf, wireOf_toNat]
+    · simp [hl, he, Rt.Phy.throw, errOf, wireOf_toNat, ereqs126]
     · have e1 := slice_wire gbuf c.rxLen hl
       have e2 := take_len gbuf c.rxLen hl
       have e3 := copy_wire gbuf ((chipRead c.buffer c.rxStart.toNat c.rxLen.toNat).map wireOf) c.rxLen (by simp [chipRead_len]) hl
@@ -124,7 +131,7 @@ theorem tieA_get_rx_payload_sx126x (self : Sx126x) (p : PacketParams) (c : Chip1
       simp [hl, e1, e2, e3, e4, take_chip, IoM.pure, wireOf_toNat, chipRead_len, readInto, failsAt, reqs126, bytesOf_append, bytesOf_map_wireOf, bytesOf_drop]
       try omega
   · by_cases hl : gbuf.length < c.regPayloadLen.toNat
-    · simp [hl, Rt.Phy.throw, errOf, wireOf_toNat]
+    · simp [hl, he, Rt.Phy.throw, errOf, wireOf_toNat, ereqs126]
     · have e1 := slice_wire gbuf c.regPayloadLen hl
       have e2 := take_len gbuf c.regPayloadLen hl
       have e3 := copy_wire gbuf ((chipRead c.buffer c.rxStart.toNat c.regPayloadLen.toNat).map wireOf) c.regPayloadLen (by simp [chipRead_len]) hl
